@@ -41,6 +41,8 @@ static std::string sigclass(const ref::Pos& p)
     return "K" + w + "K" + b;
 }
 
+static std::vector<std::string> g_recent;   // FENs evaluated most recently on the long-lived evaluator
+
 static bool bound_ok(Value v) { return v > -win_in(MAX_DEPTH) && v < win_in(MAX_DEPTH) && v != VALUE_NONE; }
 
 static void eval_state(const ref::Pos& p)
@@ -55,7 +57,20 @@ static void eval_state(const ref::Pos& p)
         Value vm = g_scorer->score(em);
         R.count("pairs");
         if (v != vm)
-            R.violation("C13:asymmetric:" + sigclass(p), mc::JObj().s("fen", ref::fen(p)).s("mirror_fen", ref::fen(m)).n("score", v).n("mirror_score", vm));
+        {
+            // does it also differ on a fresh evaluator? if not, the asymmetry comes from evaluator state
+            PositionScorer fresh1, fresh2;
+            Value f1 = fresh1.score(e), f2 = fresh2.score(em);
+            if (f1 != f2)
+                R.violation("C13:asymmetric:" + sigclass(p), mc::JObj().s("fen", ref::fen(p)).s("mirror_fen", ref::fen(m)).n("score", v).n("mirror_score", vm));
+            else
+                R.violation("C13:asymmetric_after_history:" + sigclass(p),
+                            mc::JObj().s("fen", ref::fen(p)).s("mirror_fen", ref::fen(m)).n("score", v).n("mirror_score", vm).n("fresh_score", f1)
+                                .raw("evaluated_before", mc::jlist(g_recent, true)));
+        }
+        g_recent.push_back(ref::fen(p));
+        g_recent.push_back(ref::fen(m));
+        if (g_recent.size() > 4) g_recent.erase(g_recent.begin(), g_recent.begin() + 2);
         if ((R.counters["pairs"] & 0x3FF) == 1) R.outcome(std::to_string(v));
     }
     else
@@ -136,6 +151,90 @@ static void run_bfs(const std::string& fen, int depth)
     }
     sub.exhaustive = complete;
     R.sample(mc::JObj().s("fen", fen).s("space", sub.name).str());
+    R.subspaces.push_back(sub);
+}
+
+// replay of a history-dependent C13 witness: evaluate the listed positions in order on one evaluator,
+// the last one together with its mirror
+static void run_seq(const std::string& fens)
+{
+    mc::Subspace sub;
+    sub.name = "seq";
+    sub.bound = "one given evaluation sequence";
+    std::vector<std::string> v = split(fens, ';');
+    for (size_t i = 0; i + 1 < v.size(); ++i)
+    {
+        Position e(v[i]);
+        g_scorer->score(e);
+    }
+    ref::Pos p;
+    ref::parse_fen(v.back(), p);
+    eval_state(p);
+    sub.states = v.size();
+    sub.exhaustive = true;
+    R.subspaces.push_back(sub);
+}
+
+// C14: same pawn structure, every placement of the other pieces. Two long-lived evaluators see each
+// group of equal pawn structure in opposite orders: with a transparent pawn cache the value of a
+// position cannot depend on which member of its group filled the cache.
+static void run_pawngroup(const std::string& spec)
+{
+    spaces::SigSpec sp;
+    if (!spaces::parse_sig(spec, sp)) exit(2);
+    mc::Subspace sub;
+    sub.name = "pawngroup " + spec;
+    sub.bound = "every retro-legal placement of the signature, grouped by pawn structure; evaluator A sees each group in enumeration order, evaluator B in reverse order";
+    PositionScorer A, B;
+    std::vector<ref::Pos> group;
+    std::string cur;
+    auto flush = [&]() {
+        if (group.empty()) return;
+        std::vector<Value> va(group.size()), vb(group.size());
+        for (size_t i = 0; i < group.size(); ++i)
+        {
+            Position e(ref::fen(group[i]));
+            va[i] = A.score(e);
+        }
+        for (size_t i = group.size(); i-- > 0;)
+        {
+            Position e(ref::fen(group[i]));
+            vb[i] = B.score(e);
+        }
+        for (size_t i = 0; i < group.size(); ++i)
+        {
+            sub.transitions += 2;
+            if (va[i] != vb[i])
+            {
+                R.violation("C14:impure:pawn_cache_depends_on_pieces:" + sigclass(group[i]),
+                            mc::JObj().s("fen", ref::fen(group[i])).n("score_in_order", va[i]).n("score_reverse_order", vb[i])
+                                .s("group_first", ref::fen(group.front())).s("group_last", ref::fen(group.back())));
+                break;
+            }
+            if (!bound_ok(va[i])) R.violation("C14:out_of_range:" + sigclass(group[i]), mc::JObj().s("fen", ref::fen(group[i])).n("score", va[i]));
+        }
+        R.count("pawn_groups");
+        R.count("evaluations", group.size() * 2);
+        if ((R.counters["pawn_groups"] & 0xFF) == 1 && !group.empty()) R.outcome(std::to_string(va[0]));
+        group.clear();
+    };
+    bool done = spaces::enumerate_sig(sp, [&](const ref::Pos& p) {
+        if (ref::insufficient(p)) return true;
+        std::string key;
+        for (int s = 0; s < 64; ++s)
+            if (p.b[s] == 'P' || p.b[s] == 'p') key += char(33 + s), key += p.b[s];
+        if (key != cur)
+        {
+            flush();
+            cur = key;
+        }
+        group.push_back(p);
+        sub.states++;
+        if (sub.states == 1) R.sample(mc::JObj().s("fen", ref::fen(p)).s("space", sub.name).str());
+        return (sub.states & 1023) || !R.out_of_time();
+    });
+    flush();
+    sub.exhaustive = done;
     R.subspaces.push_back(sub);
 }
 
@@ -370,6 +469,8 @@ int main(int argc, char** argv)
         auto parts = split(s, '|');
         if (parts[0] == "sig") run_sig(parts[1]);
         else if (parts[0] == "bfs") run_bfs(parts[1], atoi(parts[2].c_str()));
+        else if (parts[0] == "seq") run_seq(parts[1]);
+        else if (parts[0] == "pawngroup") run_pawngroup(parts[1]);
         else if (parts[0] == "purity")
         {
             int sh = atoi(parts[2].c_str());
